@@ -158,3 +158,19 @@ Proof.
   - intros io_text s H1 H2 H3. rewrite (io_prog_is_model lower tab lower_idem lower_strip lower_tl special pi I). apply io_custom_roundtrip; auto.
   - intros raw b c H. rewrite (kv_prog_is_model lower tab lower_idem lower_strip lower_tl pk K) in *. eapply kv_known_idempotent; eauto.
 Qed.
+
+(** I/O lines, for the members of the generated decay table: the text IODef.export writes for a member reads back as the decayed
+    member (the documented I/O type decay), and parse + export reproduces that text *)
+Theorem io_decay_fixpoint fold tab sp decay_tab special : io_decay_ok fold tab sp decay_tab special = true ->
+  forall c d, In (c, d) decay_tab ->
+  let text := io_type_text (io_text_of decay_tab special) (Known c) in
+  spec_io fold tab sp text = (false, Known (io_decay_of decay_tab c)) /\
+  io_type_text (io_text_of decay_tab special) (snd (spec_io fold tab sp text)) = text.
+Proof.
+  unfold io_decay_ok. intros H c d I. rewrite forallb_forall in H. specialize (H _ I). cbn [fst] in H.
+  unfold io_member_ok in H. cbn [io_type_text].
+  destruct (spec_io fold tab sp (io_text_of decay_tab special c)) as [b t] eqn:E.
+  destruct b; try discriminate. destruct t as [k|]; try discriminate.
+  apply andb_true_iff in H as [H1 H2]. apply tt_str_eqb_eq in H1, H2. subst k.
+  split; [reflexivity|]. cbn [snd io_type_text]. exact H2.
+Qed.
